@@ -48,6 +48,7 @@ pub fn check(h: &History, st: &mut Stats) -> CheckResult {
     let mut subject = mk(kind, eng, cur)?;
     let mut twin = mk(kind, eng, cur)?;
     let mut acc = Accepted::default();
+    let mut past: Vec<Cfg> = Vec::new();
     let mut failed_calls = 0u32;
     let mut ok_finish_after_failure = 0u32;
     let mut kinds_of_failure = std::collections::BTreeSet::new();
@@ -71,11 +72,14 @@ pub fn check(h: &History, st: &mut Stats) -> CheckResult {
             twin = rec(twin)?;
             kind = *k2;
             eng = *e2;
+            if c2 != cur {
+                past.push(cur);
+            }
             cur = c2;
             acc.clear();
             continue;
         }
-        for call in expand(op, dec, kind, cur, &acc) {
+        for call in expand(op, dec, kind, cur, &acc, &past) {
             // results are always read so that they can be compared
             let call = match call {
                 Call::Finish { .. } => Call::Finish { read: true },
@@ -110,7 +114,11 @@ pub fn check(h: &History, st: &mut Stats) -> CheckResult {
             }
             match &call {
                 Call::Reset(k, r, b) => {
-                    cur = Cfg { k: *k, r: *r, b: *b };
+                    let new = Cfg { k: *k, r: *r, b: *b };
+                    if new != cur {
+                        past.push(cur);
+                    }
+                    cur = new;
                     acc.clear();
                 }
                 Call::AddO(..) | Call::AddR(..) => acc.note(dec, &call),
